@@ -214,6 +214,7 @@ def check(prop_id, tier, seed, workers=None, budget_s=None, max_runs=None, verbo
     errors = []
     known_db = load_known()
     known_hits = {}
+    unreproduced = []
     try:
         # 1. targeted scenarios of listed findings (DESIGN §5): still failing -> KNOWN-FINDING
         for kf in known_db.get("findings", []):
@@ -282,6 +283,11 @@ def check(prop_id, tier, seed, workers=None, budget_s=None, max_runs=None, verbo
                 continue
             seen_sigs.add(signature(v))
             trace, v2, used = minimise(pool, prop_id, r["trace"], v)
+            # a violation is only reported if replaying its trace in a fresh world reproduces it
+            rr = next(iter(pool.imap([(prop_id, "replay", 0, 0, "replay", trace)])))
+            if rr.get("error") or not rr.get("violation") or signature(rr["violation"]) != signature(v2):
+                unreproduced.append({"index": r["index"], "signature": list(signature(v2))})
+                continue
             kf = known.classify(known_db, prop_id, trace, v2)
             if kf is not None:
                 known_hits[kf["id"]] = kf
@@ -323,6 +329,9 @@ def check(prop_id, tier, seed, workers=None, budget_s=None, max_runs=None, verbo
             print("  monitor=%s class=%s step=%s ops=%d (minimised with %d re-executions)" % (
                 v.get("monitor"), v.get("class"), v.get("step"), len(trace["ops"]), used))
             print("  detail=%s" % json.dumps(v.get("detail"), sort_keys=True)[:1500])
+    if unreproduced:
+        print("HARNESS-NOTE: %d violating run(s) did not reproduce on replay and were not reported: %s" % (
+            len(unreproduced), json.dumps(unreproduced)[:400]))
     if errors:
         print("HARNESS-ERROR (%d):\n%s" % (len(errors), errors[0][-3000:]))
         return 2
